@@ -66,25 +66,26 @@ type workItem struct {
 // ---- configuration and results
 
 type Config struct {
-	SolverCmd     []string
-	QueryTimeout  int // ms
-	MaxDecisions  int // per path (unwinding cap)
-	MaxPaths      int
-	MaxEnum       int // cap for value concretisation fan-out
-	Workers       int
-	NoMerge       bool
-	InitPkgs      map[string]bool // package paths whose init is executed
-	Redirects     map[string]string
-	SkipFuncs     map[string]bool
-	BigW          int
-	Preempt       int    // budget of scheduler preemptions per path at synchronisation operations (0 = cooperative run-to-block only)
-	BigArith      string // "" = bit-vector Mul/Mod, "uf" = uninterpreted Mul/Mod (+ contract 0 <= Mod < |y|)
-	Trace         bool
-	Deadline      time.Time
-	ExpectPanic   bool
-	NoANF         bool
-	ANFCheck      bool
-	StopOnViolate bool
+	SolverCmd      []string
+	QueryTimeout   int // ms
+	MaxDecisions   int // per path (unwinding cap)
+	MaxPaths       int
+	MaxEnum        int // cap for value concretisation fan-out
+	Workers        int
+	NoMerge        bool
+	InitPkgs       map[string]bool // package paths whose init is executed
+	Redirects      map[string]string
+	SkipFuncs      map[string]bool
+	BigW           int
+	HarnessGlobals map[string]bool // globals of packages outside the init set that the harness initialises itself
+	Preempt        int             // budget of scheduler preemptions per path at synchronisation operations (0 = cooperative run-to-block only)
+	BigArith       string          // "" = bit-vector Mul/Mod, "uf" = uninterpreted Mul/Mod (+ contract 0 <= Mod < |y|)
+	Trace          bool
+	Deadline       time.Time
+	ExpectPanic    bool
+	NoANF          bool
+	ANFCheck       bool
+	StopOnViolate  bool
 }
 
 type Violation struct {
